@@ -107,7 +107,7 @@ func buildWorker(v variant) (string, error) {
 		// development aid: build against another copy of the library (a scratch worktree holding a seeded change)
 		// without touching /repo. Registered commands never set it.
 		mf := filepath.Join(verifDir, ".build", "alt.mod")
-		mod := "module verifharness\n\ngo 1.21\n\nrequire github.com/db47h/decimal v0.0.0\n\nreplace github.com/db47h/decimal => " + alt + "\n"
+		mod := "module verifharness\n\ngo 1.23\n\nrequire github.com/db47h/decimal v0.0.0\n\nreplace github.com/db47h/decimal => " + alt + "\n"
 		if err := os.WriteFile(mf, []byte(mod), 0o644); err != nil {
 			return "", err
 		}
@@ -282,7 +282,7 @@ func runCheck(prop string, cfg *propCfg, tier string, seed int64) int {
 	if nshards == 0 {
 		nshards = runtime.NumCPU()
 	}
-	timeout := 20 * time.Minute
+	timeout := 8 * time.Minute
 	if tier == "thorough" {
 		timeout = 3 * time.Hour
 	}
